@@ -228,3 +228,84 @@ def rel_forms(cond, truth=True):
     op = n['op'] if pol else NEG[n['op']]
     l, r = strip_casts(n['ch'][0]), strip_casts(n['ch'][1])
     return [(l, op, r), (r, FLIP[op], l)]
+
+
+def bool_polarity(cond, truth=True):
+    """Strip leading `!` and `== false/true` wrappers: returns (core node, truth value the core must have)."""
+    n = cond
+    pol = truth
+    while True:
+        n = strip_casts(n)
+        if n['k'] == 'UnaryOperator' and n.get('op') == '!':
+            pol = not pol
+            n = n['ch'][0]
+            continue
+        if n['k'] == 'BinaryOperator' and n.get('op') in ('==', '!=') and len(n['ch']) == 2 and strip_casts(n['ch'][1])['k'] == 'CXXBoolLiteralExpr':
+            if (n['op'] == '==') != bool(strip_casts(n['ch'][1]).get('v')):
+                pol = not pol
+            n = n['ch'][0]
+            continue
+        return n, pol
+
+
+def emptiness(cond, truth=True):
+    """If `cond` (taken with the given truth value) says that a container is empty or non-empty, return (receiver node, is_empty); else None.
+    Recognised spellings: IsEmpty(), HasItems(), GetNumItems() compared with 0 (==, !=, >, <=, <, >= with either operand order) or with 1 (< 1, >= 1), each under any number of
+    `!` / `== false` / `== true` wrappers."""
+    n, pol = bool_polarity(cond, truth)
+    if n['k'] == 'CXXMemberCallExpr':
+        nm = (n.get('q') or '').split('::')[-1]
+        if nm == 'IsEmpty':
+            return n.receiver(), pol
+        if nm == 'HasItems':
+            return n.receiver(), not pol
+        return None
+    for (l, op, r) in rel_forms(n, pol):
+        if l['k'] == 'CXXMemberCallExpr' and (l.get('q') or '').split('::')[-1] == 'GetNumItems' and r.get('v') is not None:
+            v = r.get('v')
+            if (op, v) in (('==', 0), ('<=', 0), ('<', 1)):
+                return l.receiver(), True
+            if (op, v) in (('!=', 0), ('>', 0), ('>=', 1)):
+                return l.receiver(), False
+    return None
+
+
+def implied_atoms(cond, truth=True):
+    """Atoms (node, truth) that necessarily hold when `cond` evaluates to `truth`: conjuncts of a true `&&`, disjuncts of a false `||`, through `!` and `== false` wrappers and parentheses."""
+    n, pol = bool_polarity(cond, truth)
+    if n['k'] == 'BinaryOperator' and len(n['ch']) == 2 and ((n.get('op') == '&&' and pol) or (n.get('op') == '||' and not pol)):
+        return implied_atoms(n['ch'][0], pol) + implied_atoms(n['ch'][1], pol)
+    return [(n, pol)]
+
+
+def zero_test(cond, truth=True):
+    """If `cond` (with the given truth value) says an unsigned/integer expression is zero or non-zero, return (operand node, is_zero); else None.  Spellings: x == 0, 0 == x, x != 0, x > 0,
+    x <= 0, x < 1, x >= 1, and x / !x used as a boolean (integer-typed x)."""
+    n, pol = bool_polarity(cond, truth)
+    for (l, op, r) in rel_forms(n, pol):
+        if r.get('v') is not None and r['k'] != 'CXXBoolLiteralExpr':
+            v = r.get('v')
+            if (op, v) in (('==', 0), ('<=', 0), ('<', 1)):
+                return l, True
+            if (op, v) in (('!=', 0), ('>', 0), ('>=', 1)):
+                return l, False
+    if n['k'] in ('DeclRefExpr', 'MemberExpr') and is_integral_type(n.type()) and 'bool' not in n.type():
+        return n, not pol
+    return None
+
+
+def walk_through_locals(f, node, _seen=None):
+    """Yield the nodes of `node` and, for every local variable it reads, the nodes of that variable's initialiser (transitively): lets a rule see through `const T x = <expr>; if (x) ...`."""
+    seen = _seen if _seen is not None else set()
+    idx = getattr(f, '_vardecl_idx', None)
+    if idx is None:
+        idx = f._vardecl_idx = {}
+        for v in f.walk():
+            if v['k'] == 'VarDecl' and v.get('d') is not None and v['ch']:
+                idx[v['d']] = v
+    for x in node.walk():
+        yield x
+        if x['k'] == 'DeclRefExpr' and x.get('d') in idx and x['d'] not in seen:
+            seen.add(x['d'])
+            for y in walk_through_locals(f, idx[x['d']]['ch'][0], seen):
+                yield y
